@@ -62,6 +62,8 @@ def run(ch: Checker) -> None:
     ch.rule('C12.3', 'static route: the URL is random.choice(route[1]) of the route whose compiled route[0] matched text_(request.path); the route loop stops at the first match', 1)
     ch.rule('C12.4', 'request.path = choice.remainder before build(); build(host=...) is None unless flags.rewrite_host_header, else choice.hostname plus ":"+port exactly when the URL has an explicit port', 2)
     ch.rule('C12.5', 'handle_upstream_data queues its argument to the client exactly once, unchanged', 1)
+    ch.rule('C12.8', 'routes are matched against the path the client sent: the rewrite `request.path = <upstream path>` does not happen inside (or before) the loops that match route patterns, '
+                     'where a later plugin\'s patterns would be tried against the already rewritten path', 1)
     ch.rule('C12.6', 'HttpWebServerPlugin.on_request_complete: no route and no static server => NOT_FOUND + teardown; route plugins are only invoked for a matched route; '
                      'the web layer and ReverseProxy.handle_request match against the same string (the full request path)', 3)
 
@@ -183,6 +185,22 @@ def run(ch: Checker) -> None:
     # ---------------- C12.5
     _relay_param(ch, 'C12.5', prog.own_method('ReverseProxy', 'handle_upstream_data'), 'self.client.queue')
 
+    # ---------------- C12.8 matching sees the client's path
+    rq = hr.params[1]
+    match_loops = [l for l in walk_no_nested(hr.node) if isinstance(l, (ast.For, ast.While)) and any(isinstance(c, ast.Call) and isinstance(c.func, ast.Attribute) and c.func.attr in ('match', 'fullmatch', 'search')
+                                                                                                   for c in ast.walk(l))]
+    stores = [st for st in walk_no_nested(hr.node) if isinstance(st, (ast.Assign, ast.AugAssign)) and any(isinstance(t, ast.Attribute) and t.attr == 'path' and norm(t.value) == rq
+                                                                                                      for t in (st.targets if isinstance(st, ast.Assign) else [st.target]))]
+    bad8 = None
+    for st in stores:
+        if any(any(x is st for x in ast.walk(l)) for l in match_loops):
+            bad8 = 'the request path is rewritten (`%s`, line %d) inside the loop that matches route patterns: the routes of plugins that come later are tried against the rewritten upstream path, ' \
+                   'so a request can be sent to the upstream of a route its own path never matched' % (norm(st)[:60], st.lineno)
+        elif match_loops and st.lineno < min(l.lineno for l in match_loops):
+            bad8 = 'the request path is rewritten (line %d) before the routes are matched' % st.lineno
+    ch.check(bad8 is None and bool(match_loops), 'C12.8', hr, 'match the client path', 'request.path is rewritten only after route matching (%d store(s), %d matching loop(s))' % (len(stores), len(match_loops)),
+             bad8 or 'no route matching loop found')
+
     # ---------------- C12.6
     orc = prog.own_method('HttpWebServerPlugin', 'on_request_complete')
     go = cfg_of(orc, prog, exc_edges=False)
@@ -229,6 +247,9 @@ def run(ch: Checker) -> None:
              'web layer matches %s, reverse proxy matches %s: the full request path on both sides' % (web_arg, sorted(rev_args)),
              'the web layer matches routes against %s but the reverse proxy against %s: a request admitted by the first can find no route in the second (no 404, no upstream, '
              'connection left hanging) or the other way round' % (web_arg, sorted(rev_args)))
+    # ---------------- C12.9 (shared)
+    ch.import_rules('C01', {'C01.10': 'C12.9'}, 'the upstream\'s response is relayed only if the upstream is read while the request is still being written to it')
+
     # ---------------- C12.7 (shared)
     ch.import_rules('C02', {'C02.2': 'C12.7'}, 'the request line the reverse-proxied origin reads is what HttpParser.build makes of the path the route chose')
 
